@@ -7,6 +7,7 @@ Line-protocol driver for the C02 interleaving model (Model/VersionSet.lean).
   find <r> <k>           snapshot.FindReaders(k) + Get(k) on every reader
   findfail <r> <k> <f>   snapshot.FindReaders(k) while the open of table f fails once (injected fault)
   load <r> <k>           snapshot.Load(k)
+  loadc <r> <k> f ..     snapshot.Load(k), a Cleanup tick inside the loader closed the entries f ..
   close <r>              snapshot.Close() up to the yield after ref.Dec
   close2 <r>             a second Close() on the same snapshot object (overlapping or after the first)
   parget <r1> <r2> <f>   both snapshots call GetReader(f) at the same time (f not mapped)
@@ -160,6 +161,18 @@ def step' (d : D) (ws : List String) : D × String :=
     match r.toNat?, k.toNat? with
     | some r, some k => doRead d r k false
     | _, _ => (d, "bad-op")
+  | "loadc" :: r :: k :: ev =>
+    -- Load(k) whose loader lets a cache Cleanup tick run (closing exactly the entries ev) before it
+    -- uses the value: the tables Load reads are retained, so the tick can only close others
+    match r.toNat?, k.toNat?, ev.mapM String.toNat? with
+    | some r, some k, some ev =>
+      let (d1, res) := doRead d r k false
+      if res.startsWith "ok" then
+        match step d1.cfg d1.st (.cleanup ev) with
+        | some s' => answer { d1 with st := s' } (((res.splitOn " | ").headD "") )
+        | none => answer d1 "bad-evict"
+      else (d1, res)
+    | _, _, _ => (d, "bad-op")
   | ["findfail", r, k, f] =>
     -- FindReaders(k) where opening table f (the only covering table of its level, not mapped) fails:
     -- the covering tables of the lower levels were opened before it (levels are visited in order)
